@@ -129,7 +129,8 @@ def main(tier: str, seed: int) -> int:
     chk.extra["hashseeds"] = hs
     obs = {"histories": 0, "final_model_equals_reference": 0, "diagrams_compared": 0,
            "equal_by_normal_form": 0, "equal_by_language": 0, "both_unparsable": 0,
-           "both_fail": 0, "gate_tree_reads": 0, "pure_reload_histories": 0,
+           "both_fail": 0, "gate_tree_reads": 0, "gate_tree_freshness_checks": 0,
+           "gate_tree_freshness_undecided": 0, "pure_reload_histories": 0,
            "cli_histories": 0, "cli_process_runs": 0, "roundtrip_models": 0,
            "model_only_histories": 0, "branch_count_events_compared": 0,
            "roundtrip_max_count": 0, "roundtrip_with_empty_lists": 0}
@@ -157,6 +158,8 @@ def main(tier: str, seed: int) -> int:
         if not c["split"][-1]:
             obs["pure_reload_histories"] += 1
         obs["gate_tree_reads"] += r.get("gate_tree_reads", 0)
+        obs["gate_tree_freshness_checks"] += r.get("gate_tree_fresh_checks", 0)
+        obs["gate_tree_freshness_undecided"] += r.get("gate_tree_fresh_undecided", 0)
         if c.get("model_only"):
             obs["model_only_histories"] += 1
             obs["branch_count_events_compared"] += r.get("bcnt_events", 0)
@@ -223,6 +226,8 @@ def main(tier: str, seed: int) -> int:
         chk.note_inconclusive("no history produced two diagrams to compare")
     if obs["pure_reload_histories"] == 0:
         chk.note_inconclusive("no history with a pure reload (empty last chunk)")
+    if obs["gate_tree_freshness_checks"] == 0:
+        chk.note_inconclusive("gate-tree freshness monitor never compared a tree")
     if obs["gate_tree_reads"] == 0:
         chk.note_inconclusive("gate-tree monitor never fired")
     if obs["cli_histories"] == 0:
